@@ -1,5 +1,7 @@
 """Run the checks against the seeded changes under /verif/seeded/<id>/<variant>/.
-usage: python3 harness/run_seeded.py [Cxx[/variant] ...]
+usage: python3 harness/run_seeded.py [-jN] [Cxx[/variant] ...]
+(-jN: N workers, each in its own scratch copy of /verif under /tmp, removed afterwards;
+without -j the run happens in /verif itself and ends with ./check --setup)
 For each: fresh scratch worktree of /repo, apply patch.diff, confirm the baseline
 tests still pass and demo.py fails there (and passes on /repo), run ./check <id>
 with VERIF_REPO pointing at the worktree, record the outcome in result.json, remove
@@ -20,7 +22,7 @@ def sh(cmd, **kw):
     return p.returncode, p.stdout
 
 
-def run_one(sdir, extra_checks=()):
+def run_one(sdir, extra_checks=(), vdir=V):
     pid = sdir.rstrip('/').split('/')[-2]
     meta = {}
     try:
@@ -48,7 +50,7 @@ def run_one(sdir, extra_checks=()):
         res['checks'] = {}
         for c in checks:
             t0 = time.time()
-            rc, out = sh('cd %s && VERIF_REPO=%s ./check %s --tier quick' % (V, wt, c), timeout=3600)
+            rc, out = sh('cd %s && VERIF_REPO=%s ./check %s --tier quick' % (vdir, wt, c), timeout=3600)
             lines = [l for l in out.split('\n') if l.startswith(('VIOLATION', 'OK ', 'FAIL ', 'KNOWN-FINDING'))]
             last = [l for l in lines if l.startswith(('OK ', 'FAIL '))]
             m = re.search(r'obligations=(\d+)/(\d+).*disagreements=(\d+) violations=(\d+)', last[-1]) if last else None
@@ -71,19 +73,50 @@ def run_one(sdir, extra_checks=()):
     return res
 
 
+def report(r):
+    c = r.get('checks', {}).get(r['property'], {})
+    print('%s/%s applies=%s tests=%s demo=%s/%s caught=%s layers=%s kinds=%s' % (
+        r['property'], r['variant'], r.get('applies'), r.get('tests_pass'), r.get('demo_fails_with_change'),
+        r.get('demo_passes_without'), c.get('caught'), c.get('layers'), c.get('violation_kinds')), flush=True)
+
+
 def main(argv):
+    jobs = 0
+    for a in list(argv):
+        if a.startswith('-j'):
+            jobs = int(a[2:] or 4)
+            argv.remove(a)
     sel = argv or ['']
     dirs = []
     for s in sel:
         dirs += sorted(d for d in glob.glob(os.path.join(V, 'seeded', '*', '*', '')) if s in d)
-    out = []
+    if jobs:
+        import queue
+        import threading
+        q = queue.Queue()
+        for d in dirs:
+            q.put(d)
+
+        def worker(k):
+            vdir = '/tmp/vcopy-%d-%d' % (os.getpid(), k)
+            sh('rm -rf %s && mkdir -p %s && rsync -a --exclude .git --exclude .claude --exclude replays %s/ %s/' % (vdir, vdir, V, vdir))
+            try:
+                while True:
+                    try:
+                        d = q.get_nowait()
+                    except queue.Empty:
+                        return
+                    report(run_one(d, vdir=vdir))
+            finally:
+                sh('rm -rf %s' % vdir)
+        ts = [threading.Thread(target=worker, args=(k,)) for k in range(min(jobs, len(dirs)))]
+        for t in ts:
+            t.start()
+        for t in ts:
+            t.join()
+        return 0
     for d in dirs:
-        r = run_one(d)
-        out.append(r)
-        c = r.get('checks', {}).get(r['property'], {})
-        print('%s/%s applies=%s tests=%s demo=%s/%s caught=%s layers=%s kinds=%s' % (
-            r['property'], r['variant'], r.get('applies'), r.get('tests_pass'), r.get('demo_fails_with_change'),
-            r.get('demo_passes_without'), c.get('caught'), c.get('layers'), c.get('violation_kinds')), flush=True)
+        report(run_one(d))
     # put the generated files back to /repo's state
     sh('cd %s && ./check --setup' % V)
     return 0
